@@ -87,7 +87,7 @@ pub fn pad_no_panic(_args: &[String]) -> String {
                     let r = std::panic::catch_unwind(|| padded(s, w, al, tr));
                     if let Err(e) = r {
                         let m = e.downcast_ref::<String>().cloned().or_else(|| e.downcast_ref::<&str>().map(|x| x.to_string())).unwrap_or_default();
-                        return format!("{{\"found\": true, \"clause\": \"C14 a placeholder field never panics while it is rendered, whatever the text\", \"tried\": {}, \"input\": {{\"text\": {}, \"width\": {}, \"align\": {}, \"truncate\": {}, \"panic\": {}}}, \"rerun\": \"replay pad_no_panic\"}}",
+                        return format!("{{\"found\": true, \"clause\": \"C14/C12 a placeholder field never panics while it is rendered, whatever the text\", \"tried\": {}, \"input\": {{\"text\": {}, \"width\": {}, \"align\": {}, \"truncate\": {}, \"panic\": {}}}, \"rerun\": \"replay pad_no_panic\"}}",
                             tried, crate::js(s), w, al, tr, crate::js(&m));
                     }
                 }
